@@ -10,7 +10,7 @@
    fields of row r denote (Verif.C20.Spec): value / uncertainty decimal strings
    verbatim with the column's unit, None where the value field is blank.
    Results are [Ok x] or [Err ValueError|TypeError|IndexError] (any Err = rejected). *)
-From Coq Require Import Reals ZArith NArith String List Bool.
+From Coq Require Import Reals ZArith NArith String Ascii List Bool.
 From Verif.Sem Require Import Field Val RInst RLemmas.
 From Verif.C20 Require Import Dec Model Spec Proofs SemExt.
 From Run Require Import GenTables GenAtoms GenMaterial Tie TieAtt.
@@ -93,6 +93,14 @@ Theorem C20_atom_rejects_unknown : forall s,
   ~ In s (names weight_rows) -> ~ In s (names mass_rows) -> exists e, atom_lookup s = Err e.
 Proof. exact atom_reject_tie. Qed.
 
+(* 5b. the near-miss CLASS: a string that is not of the shape (optional mass number)(one or more ASCII
+      letters) — a blank, tab, newline, comma, sign, bracket or any other foreign character before, after or
+      inside a valid name ("H ", "H\n", " H", "He-3", "C+", "U,1", "H e"), letters followed by digits ("He3",
+      "H2"), digits only, the empty string — is rejected by both entry points, whatever valid name it contains *)
+Theorem C20_malformed_name_rejected : forall s,
+  is_nuclide_name s = false -> scat_lookup s = Err ValueError /\ exists e, atom_lookup s = Err e.
+Proof. exact malformed_name_rejected. Qed.
+
 (* 6. attenuation_formula: for arbitrary units of n, sigma_s, sigma_a, lambda (multipliers
       sn, us, ua, sl > 0) and all numeric dtypes, the regenerated
       Material.attenuation_coefficient is a scalar of dimension 1/length, in the unit
@@ -124,6 +132,13 @@ Example C20_unknown_names_exist :
   existsb (String.eqb "Hx") (names scat_rows) = false
   /\ existsb (String.eqb "D") (names weight_rows ++ names mass_rows) = false.
 Proof. vm_compute. split; reflexivity. Qed.
+Example C20_malformed_names_exist :
+  forallb (fun s => negb (is_nuclide_name s))
+          ["H "; " H"; "He3"; "H2"; "He-3"; "C+"; "U,1"; "H e"; "3-He"; "3 He"; ""; "12";
+           String (ascii_of_N 72) (String (ascii_of_N 10) EmptyString);      (* "H\n" *)
+           String (ascii_of_N 72) (String (ascii_of_N 9) EmptyString)] = true   (* "H\t" *)
+  /\ is_nuclide_name "3He" = true /\ is_nuclide_name "He" = true.
+Proof. vm_compute. repeat split; reflexivity. Qed.
 Example C20_attenuation_nonvacuous :
   (1 > 0)%R /\ is_num DF64 = true /\ is_num DI64 = true.
 Proof. repeat split; try reflexivity. exact Rlt_0_1. Qed.
@@ -140,4 +155,5 @@ Print Assumptions C20_mass_only_for_isotopes.
 Print Assumptions C20_weight_only_if_standard.
 Print Assumptions C20_scattering_rejects_unknown.
 Print Assumptions C20_atom_rejects_unknown.
+Print Assumptions C20_malformed_name_rejected.
 Print Assumptions C20_attenuation_formula.
